@@ -109,7 +109,7 @@ def _path_of(place):
     return upvar, names
 
 
-def origins(body, start, opaque=None, follow_workspace=False, max_nodes=20000, stop_adts=()):
+def origins(body, start, opaque=None, follow_workspace=False, max_nodes=20000, stop_adts=(), through=False):
     """start: operand dict, place dict, local index, or list of those"""
     prog = body.prog
     sl = Slice()
@@ -242,6 +242,10 @@ def origins(body, start, opaque=None, follow_workspace=False, max_nodes=20000, s
                 sl.calls.append(cs)
                 if is_opaque(cs):
                     sl.leaves.add("call:%s" % cs.name)
+                    if through:
+                        # record the workspace call as a leaf AND keep following what was given to it
+                        for a in cs.args:
+                            add_op(a)
                 else:
                     sl.via.add(cs.name)
                     for a in cs.args:
